@@ -6,6 +6,7 @@ import GoZero.Base.Trace
 import GoZero.C16.Spec
 import GoZero.C16.DriverRW
 import GoZero.C16.DriverCache
+import GoZero.C16.ModelApi
 namespace GoZero.C16
 
 open GoZero
@@ -53,6 +54,7 @@ def runQueue (r : Report) (s : Section) : Report := Id.run do
           r := r.addCover (if q.head = q.tail ∧ q.count > 0 then
                              (if q.head = 0 then "q-put-grow-head0" else "q-put-grow-wrapped")
                            else if q.tail + 1 = q.elems.length then "q-put-wrap" else "q-put")
+          if x = 0 then r := r.addCover "q-put-nil"
           q := q.put x
           sp := (Spec.Fifo.step sp (.put x)).1
           r := judge r s l "ok" "ok"
@@ -60,6 +62,7 @@ def runQueue (r : Report) (s : Section) : Report := Id.run do
       let (o, q') := q.take
       let (sp', so) := Spec.Fifo.step sp .take
       r := r.addCover (if o.isNone then "q-take-empty" else if q.head + 1 = q.elems.length then "q-take-wrap" else "q-take")
+      if o = some 0 then r := r.addCover "q-take-nil-is-present"
       r := judge r s l (optS o) (match so with | .val v => optS v | _ => "?")
       q := q'
       sp := sp'
@@ -74,10 +77,11 @@ def runQueue (r : Report) (s : Section) : Report := Id.run do
 def runRing (r : Report) (s : Section) : Report := Id.run do
   let nI := kvInt s.cfg "n" 1
   let n := nI.toNat
-  let mut rg := Ring.new n
   let mut hist : Array Nat := #[]
   let mut r := r
-  if nI < 1 then
+  -- the constructor as a function of ANY integer argument (`Ring.newApi`, `ring_api_keeps_last_n`)
+  let mut rg := (Ring.newApi nI).getD (Ring.new 0)
+  if (Ring.newApi nI).isNone then
     -- `NewRing(n)` with n < 1 panics (`tie_newRingGuard`): no ring exists, outside the property (n ≥ 1)
     r := r.addCover "ring-new-panics"
     for l in s.lines do
@@ -92,6 +96,7 @@ def runRing (r : Report) (s : Section) : Report := Id.run do
       | none => r := r.mismatch s.idx l.idx "bad-op" (joinSp l.op)
       | some x =>
         r := r.addCover (if rg.index + 1 ≥ 2 * n then "ring-add-foldback" else if rg.index ≥ n then "ring-add-overwrite" else "ring-add")
+        if x = 0 then r := r.addCover "ring-add-nil"
         rg := rg.add x
         hist := hist.push x
         r := judge r s l "ok" "ok"
@@ -134,6 +139,7 @@ def runSet (r : Report) (s : Section) : Report := Id.run do
         r := r.addCover (if st.tp = tpUntyped ∧ knownType x.1 then "set-add-settype"
                          else if x ∈ st.data then "set-add-present"
                          else if st.tp ≠ tpUnmanaged ∧ st.tp ≠ tpUntyped ∧ st.mismatch x then "set-add-typemismatch" else "set-add")
+        if x.1 = 8 then r := r.addCover "set-add-nil"
         st := st.add x
         hist := .add x :: hist
         sp := if sp.contains x then sp else x :: sp
@@ -196,6 +202,7 @@ def runSafeMap (r : Report) (s : Section) : Report := Id.run do
       | some (k, v) =>
         r := r.addCover (if m.delOld ≤ maxDel then (if ahas m.new k then "sm-set-old-movefromnew" else "sm-set-old")
                          else (if ahas m.old k then "sm-set-new-movefromold" else "sm-set-new"))
+        if v = 0 then r := r.addCover "sm-set-nil"
         m := m.set maxDel k v
         sp := Spec.alStep sp (.set k v)
         r := judge r s l "ok" "ok"
@@ -216,6 +223,7 @@ def runSafeMap (r : Report) (s : Section) : Report := Id.run do
       | none => r := r.mismatch s.idx l.idx "bad-op" (joinSp l.op)
       | some k =>
         r := r.addCover (if ahas m.old k then "sm-get-old" else if ahas m.new k then "sm-get-new" else "sm-get-absent")
+        if m.get k = some 0 then r := r.addCover "sm-get-nil-is-present"
         r := judge r s l (optS (m.get k)) (optS (alookup sp k))
     | ["size"] =>
       r := r.addCover "sm-size"
@@ -223,6 +231,34 @@ def runSafeMap (r : Report) (s : Section) : Report := Id.run do
     | ["range"] =>
       r := r.addCover "sm-range"
       r := judge r s l (canonPairs m.range) (canonPairs sp)
+    | ["rangestop", j] =>
+      -- `Range(f)` with an `f` that answers false from its j-th call on (0 = never): `safemap_range_stops` —
+      -- f is called min(j, size) times, never twice with a key, only with pairs of the map.  The order of a Go map
+      -- iteration is random, so the pairs are compared with the spec map, the COUNT with the model.
+      -- `o+d`: d calls beyond the size of the old generation at this moment
+      match (if j.startsWith "o+" then (j.drop 2).toString.toNat?.map (m.old.length + ·) else j.toNat?) with
+      | none => r := r.mismatch s.idx l.idx "bad-op" (joinSp l.op)
+      | some j =>
+        let want := (m.rangeUntil j).length
+        let wantSpec := if j = 0 then sp.length else min j sp.length
+        r := r.addCover (if j = 0 then "sm-rangestop-never" else if j ≤ m.old.length then "sm-rangestop-in-old"
+                         else if j ≤ m.size then "sm-rangestop-in-new" else "sm-rangestop-beyond-size")
+        if j ≠ 0 ∧ j ≤ m.old.length ∧ m.new.length > 0 then r := r.addCover "sm-rangestop-in-old-new-nonempty"
+        let calls := kvNat l.obs "calls" 0
+        let pairs := (l.obs.drop 1).filterMap fun tok =>
+          match tok.splitOn ":" with
+          | [k, v] => (do pure ((← k.toNat?), (← v.toNat?)) : Option (Nat × Nat))
+          | _ => none
+        if l.obs.head? ≠ some s!"calls={calls}" ∨ pairs.length + 1 ≠ l.obs.length ∨ pairs.length ≠ calls then
+          r := r.mismatch s.idx l.idx s!"calls={want} <pairs>" (joinSp l.obs)
+        else
+          if calls ≠ want then r := r.mismatch s.idx l.idx s!"calls={want}" (joinSp l.obs)
+          if calls ≠ wantSpec then
+            r := r.violation s.idx l.idx s!"struct=safemap op=[{joinSp l.op}] Range called f {calls} times although f said stop at call {j}; size={sp.length}, want {wantSpec} calls"
+          if ¬ (pairs.map (·.1)).Nodup then
+            r := r.violation s.idx l.idx s!"struct=safemap op=[{joinSp l.op}] Range visited a key twice impl=[{joinSp l.obs}]"
+          if pairs.any fun (k, v) => alookup sp k ≠ some v then
+            r := r.violation s.idx l.idx s!"struct=safemap op=[{joinSp l.op}] Range visited a pair that is not in the map impl=[{joinSp l.obs}] map=[{canonPairs sp}]"
     | ["st"] =>
       -- white-box: generation counters and sizes (correspondence only)
       let ms := s!"{m.delOld} {m.delNew} {m.old.length} {m.new.length}"
@@ -270,7 +306,7 @@ def runMulti (r : Report) (s : Section) : Report := Id.run do
         if joinSp nl.obs ≠ "ok" then r := r.mismatch s.idx nl.idx "ok" (joinSp nl.obs)
         if cfgs.contains cfg then
           r := r.addCover "multi-same-parameters"
-          if kvStr cfg "s" = "cache" ∧ kvInt cfg "limit" 0 > 0 then r := r.addCover "multi-cache-shared-option-lru"
+          if kvStr cfg "s" = "cache" ∧ cacheLimitOf cfg > 0 then r := r.addCover "multi-cache-shared-option-lru"
         cfgs := cfg :: cfgs
         r := runSingle r { idx := s.idx, cfg := cfg, lines := rest.map fun (l : Line) => { l with op := l.op.drop 1 } }
   return r
